@@ -2,6 +2,7 @@ package main
 
 import (
 	"fmt"
+	"go/token"
 	"go/types"
 	"sort"
 
@@ -201,7 +202,12 @@ func runReinit(p *Program, r *RuleResult) {
 			if !ok || n != f.Name() {
 				return false
 			}
-			// fresh value: constant, make(...), or a call result
+			// fresh value: constant, make(...), or a call result that is not computed from
+			// what the environment held before (a context derived from the previous run's
+			// context, a channel taken over from it, a counter continued …)
+			if dependsOnEnvState(stt.Val, re, 0) {
+				return false
+			}
 			switch v := stt.Val.(type) {
 			case *ssa.Const, *ssa.MakeChan:
 				return true
@@ -327,4 +333,64 @@ func runFreshParse(p *Program, r *RuleResult) {
 		v = Violated
 	}
 	r.add(fnName(entry), "fresh-parser-value-per-parse", v, p.pos(entry.Pos()), "")
+}
+
+// dependsOnEnvState: v is computed from a value loaded out of a field of the runtime
+// environment object (state a previous run may have left there).
+func dependsOnEnvState(v ssa.Value, env *types.Named, depth int) bool {
+	if depth > 8 {
+		return true
+	}
+	switch x := v.(type) {
+	case *ssa.UnOp:
+		if x.Op == token.MUL {
+			if fa, ok := x.X.(*ssa.FieldAddr); ok {
+				if n := namedOf(fa.X.Type()); n != nil && n.Obj() == env.Obj() {
+					return true
+				}
+			}
+			if al, ok := x.X.(*ssa.Alloc); ok {
+				for _, st := range storesTo(al) {
+					if dependsOnEnvState(st.Val, env, depth+1) {
+						return true
+					}
+				}
+				return false
+			}
+		}
+		return dependsOnEnvState(x.X, env, depth+1)
+	case *ssa.Field:
+		if n := namedOf(x.X.Type()); n != nil && n.Obj() == env.Obj() {
+			return true
+		}
+		return dependsOnEnvState(x.X, env, depth+1)
+	case *ssa.Phi:
+		for _, e := range x.Edges {
+			if dependsOnEnvState(e, env, depth+1) {
+				return true
+			}
+		}
+	case *ssa.Extract:
+		return dependsOnEnvState(x.Tuple, env, depth+1)
+	case *ssa.Call:
+		for _, a := range x.Common().Args {
+			if dependsOnEnvState(a, env, depth+1) {
+				return true
+			}
+		}
+		if x.Common().IsInvoke() {
+			return dependsOnEnvState(x.Common().Value, env, depth+1)
+		}
+	case *ssa.MakeInterface:
+		return dependsOnEnvState(x.X, env, depth+1)
+	case *ssa.ChangeInterface:
+		return dependsOnEnvState(x.X, env, depth+1)
+	case *ssa.ChangeType:
+		return dependsOnEnvState(x.X, env, depth+1)
+	case *ssa.Convert:
+		return dependsOnEnvState(x.X, env, depth+1)
+	case *ssa.BinOp:
+		return dependsOnEnvState(x.X, env, depth+1) || dependsOnEnvState(x.Y, env, depth+1)
+	}
+	return false
 }
